@@ -289,7 +289,7 @@ class _Run:
             new &= full(ty)
         elif op in ("shl", "lshr", "ashr"):
             a, b = ops
-            if b[0] == "i":
+            if b[0] == "i" and isinstance(b[1], int):
                 k = b[1]
                 if op == "shl":
                     new = (m(a) << k) & full(ty)
